@@ -8,6 +8,7 @@ use crate::solo::{self, Cfg, GenProfile, Op, Solo};
 use serde::{Deserialize, Serialize};
 use std::collections::BTreeMap;
 use std::hash::{Hash, Hasher};
+use crate::twin::{self, ForkKind};
 
 #[derive(Clone, Copy, Debug, PartialEq, Eq)]
 pub enum Tier {
@@ -19,22 +20,67 @@ pub enum Tier {
 #[serde(tag = "driver")]
 pub enum Case {
     Solo { cfg: Cfg, ops: Vec<Op> },
+    Alloc { case: crate::alloc::ACase },
+    /// C09: reference feeding of (cfg, ops) vs burst `burst` of the same byte stream cut at `cuts`
+    Chunk { cfg: Cfg, ops: Vec<Op>, burst: usize, cuts: Vec<usize> },
+    /// C16 / C10 / C17 twin comparison; `ops` = head, `cont` = traced continuation
+    Fork { kind: ForkKind, cfg: Cfg, ops: Vec<Op>, cont: Vec<Op>, mangle: ExportMangle },
 }
 
 impl Case {
     pub fn len(&self) -> usize {
         match self {
             Case::Solo { ops, .. } => ops.len(),
+            Case::Alloc { case } => case.ops.len(),
+            Case::Chunk { ops, .. } => ops.len(),
+            Case::Fork { ops, cont, .. } => ops.len() + cont.len(),
         }
     }
     /// the case with only the ops whose index is in `keep`
     pub fn subset(&self, keep: &[bool]) -> Case {
         match self {
             Case::Solo { cfg, ops } => Case::Solo { cfg: cfg.clone(), ops: ops.iter().zip(keep).filter(|(_, k)| **k).map(|(o, _)| o.clone()).collect() },
+            Case::Alloc { case } => {
+                let mut c = case.clone();
+                c.ops = case.ops.iter().zip(keep).filter(|(_, k)| **k).map(|(o, _)| o.clone()).collect();
+                Case::Alloc { case: c }
+            }
+            Case::Chunk { cfg, ops, burst, cuts } => Case::Chunk { cfg: cfg.clone(), ops: ops.iter().zip(keep).filter(|(_, k)| **k).map(|(o, _)| o.clone()).collect(), burst: *burst, cuts: cuts.clone() },
+            Case::Fork { kind, cfg, ops, cont, mangle } => {
+                let n = ops.len();
+                Case::Fork {
+                    kind: *kind,
+                    cfg: cfg.clone(),
+                    ops: ops.iter().zip(&keep[..n]).filter(|(_, k)| **k).map(|(o, _)| o.clone()).collect(),
+                    cont: cont.iter().zip(&keep[n..]).filter(|(_, k)| **k).map(|(o, _)| o.clone()).collect(),
+                    mangle: *mangle,
+                }
+            }
         }
     }
     pub fn simpler_variants(&self) -> Vec<Case> {
         match self {
+            Case::Alloc { .. } => vec![],
+            Case::Chunk { cfg, ops, burst, cuts } => {
+                // fewer cuts, earlier bursts
+                let mut out = vec![];
+                for i in 0..cuts.len() {
+                    let mut c = cuts.clone();
+                    c.remove(i);
+                    out.push(Case::Chunk { cfg: cfg.clone(), ops: ops.clone(), burst: *burst, cuts: c });
+                }
+                for b in 0..*burst {
+                    out.push(Case::Chunk { cfg: cfg.clone(), ops: ops.clone(), burst: b, cuts: cuts.clone() });
+                }
+                out
+            }
+            Case::Fork { kind, cfg, ops, cont, mangle } => {
+                let mut out = vec![];
+                if *mangle != ExportMangle::None {
+                    out.push(Case::Fork { kind: *kind, cfg: cfg.clone(), ops: ops.clone(), cont: cont.clone(), mangle: ExportMangle::None });
+                }
+                out
+            }
             Case::Solo { cfg, ops } => {
                 let mut out = vec![];
                 let mut push = |c: Cfg| {
@@ -178,6 +224,7 @@ fn op_kind(o: &Op) -> u8 {
         Op::PeerRaw { .. } => 125,
         Op::SetChunk { .. } => 126,
         Op::Drain => 127,
+        Op::Forget => 128,
     }
 }
 
@@ -243,7 +290,7 @@ fn tune(prop: &str, c: &mut Cfg, p: &mut GenProfile, r: &mut Rng) {
                 c.s_tam = Some(0);
             }
         }
-        "C08" => {
+        "C08" | "C20" => {
             p.w_ids = 20;
             p.w_sub = 14;
         }
@@ -291,7 +338,57 @@ fn tune(prop: &str, c: &mut Cfg, p: &mut GenProfile, r: &mut Rng) {
     }
 }
 
+fn alloc_outcome(c: &crate::alloc::ACase) -> Outcome {
+    let o = crate::alloc::run(c);
+    let kinds: Vec<u8> = c.ops.iter().map(|op| match op {
+        crate::alloc::AOp::Allocate => 0u8,
+        crate::alloc::AOp::Use(_) => 1,
+        crate::alloc::AOp::DeallocNth(_) | crate::alloc::AOp::Dealloc(_) => 2,
+        crate::alloc::AOp::Clear => 3,
+        crate::alloc::AOp::IsUsed(_) => 4,
+        crate::alloc::AOp::FirstVacant => 5,
+        crate::alloc::AOp::Count => 6,
+    }).collect();
+    let mut out = Outcome { viol: o.viol, steps: o.steps, shape: h64(&(c.wide, c.lo, c.hi, &c.ops)), nontrivial: c.ops.len() >= 2, ..Default::default() };
+    let _ = kinds;
+    out.stats.calls = o.steps;
+    if o.filled {
+        out.stats.hit("c20_range_exhausted");
+    }
+    if o.max_intervals >= 3 {
+        out.stats.hit("c20_three_or_more_intervals");
+    }
+    if c.hi >= 4294967295 {
+        out.stats.hit("c20_u32_extreme_range");
+    }
+    if c.lo == c.hi {
+        out.stats.hit("c20_single_value_range");
+    }
+    out
+}
+
 pub fn generate(prop: &str, rng: &mut Rng, tier: Tier, run: u64) -> (Case, Outcome) {
+    if prop == "C20" {
+        let et = crate::alloc::enum_total();
+        if run < et {
+            let c = crate::alloc::enum_case(run).unwrap();
+            let mut o = alloc_outcome(&c);
+            o.stats.hit("c20_enumerated_case");
+            return (Case::Alloc { case: c }, o);
+        }
+        if run % 5 != 4 {
+            let c = crate::alloc::gen(rng, if tier == Tier::Quick { 40 } else { 200 });
+            let o = alloc_outcome(&c);
+            return (Case::Alloc { case: c }, o);
+        }
+        // every fifth random run: the allocator inside a connection (in-situ invariant)
+    }
+    match prop {
+        "C09" => return gen_c09(rng, tier, run),
+        "C16" => return gen_c16(rng, tier, run),
+        "C10" => return gen_c10(rng, tier, run),
+        _ => {}
+    }
     let faults = run % 4 != 0;
     let mut cfg = solo::gen_cfg(rng, faults);
     let mut prof = GenProfile::default();
@@ -324,8 +421,335 @@ pub fn generate(prop: &str, rng: &mut Rng, tier: Tier, run: u64) -> (Case, Outco
     (Case::Solo { cfg, ops }, o)
 }
 
+fn merge_solo_stats(o: &mut Outcome, s: &Solo) {
+    o.stats.merge(&s.w.stats);
+    for (k, v) in &s.faults {
+        *o.faults.entry(k.to_string()).or_insert(0) += v;
+    }
+    o.steps += s.w.step as u64;
+    o.sim_ms += s.now_ms;
+}
+
+/// draw a history with the solo generator (no Drain at the end)
+fn gen_history(cfg: &Cfg, prof: &GenProfile, rng: &mut Rng, len: u64, adversary: bool) -> (Solo, Vec<Op>) {
+    let mut s = Solo::new(cfg.clone());
+    let mut ops = vec![];
+    for _ in 0..len {
+        let mut op = solo::gen_op(&s, rng, prof);
+        if adversary && s.w.m.st != St::Disc && !s.w.want_close && rng.chance(1, 8) {
+            op = Op::PeerRaw { bytes: solo::gen_adversarial(&s, rng) };
+        }
+        ops.push(op.clone());
+        s.exec(&op);
+        if s.w.failed() {
+            break;
+        }
+    }
+    (s, ops)
+}
+
+fn gen_c09(rng: &mut Rng, tier: Tier, run: u64) -> (Case, Outcome) {
+    let mut cfg = solo::gen_cfg(rng, run % 3 != 0);
+    cfg.f_chunk = false;
+    cfg.f_crash = false;
+    let mut prof = GenProfile::default();
+    prof.w_peerpub = 40;
+    prof.w_peerack = 40;
+    prof.w_pub = 20;
+    prof.w_misc = 2;
+    let len = rng.range(4, if tier == Tier::Quick { 30 } else { 60 });
+    let (_, ops) = gen_history(&cfg, &prof, rng, len, run % 2 == 0);
+    let a = twin::run_reference(&cfg, &ops);
+    let mut o = Outcome { shape: h64(&ops.iter().map(op_kind).collect::<Vec<_>>()), ..Default::default() };
+    merge_solo_stats(&mut o, &a);
+    o.log = a.w.log.clone();
+    if a.w.failed() {
+        // the reference run itself trips a monitor: report under that monitor's properties
+        o.viol = a.w.viol.clone();
+        return (Case::Solo { cfg, ops }, o);
+    }
+    let bl = twin::bursts(a.w.calls.as_ref().unwrap());
+    if bl.is_empty() {
+        return (Case::Chunk { cfg, ops, burst: 0, cuts: vec![] }, o);
+    }
+    o.nontrivial = true;
+    // enumerate: one burst per history (round robin), every single cut and every pair of cuts
+    // for short bursts, the all-single-bytes partition, and seeded partitions
+    let bi = (run as usize) % bl.len();
+    let n = bl[bi];
+    let mut parts: Vec<Vec<usize>> = vec![];
+    let full = n <= 40;
+    for i in 1..n {
+        parts.push(vec![i]);
+    }
+    if full {
+        for i in 1..n {
+            for j in i + 1..n {
+                parts.push(vec![i, j]);
+            }
+        }
+        o.stats.hit("c09_bursts_enumerated_completely_up_to_2_cuts");
+    } else {
+        for _ in 0..64 {
+            let i = rng.range(1, n as u64 - 1) as usize;
+            let j = rng.range(1, n as u64 - 1) as usize;
+            parts.push(vec![i.min(j), i.max(j)]);
+        }
+    }
+    parts.push((1..n).collect());
+    for _ in 0..8 {
+        let k = rng.range(1, 6);
+        let mut c: Vec<usize> = (0..k).map(|_| rng.range(1, n.max(2) as u64 - 1) as usize).collect();
+        c.sort_unstable();
+        parts.push(c);
+    }
+    // the other bursts: seeded partitions
+    for (b, len) in bl.iter().enumerate() {
+        if b != bi && *len > 1 {
+            let i = rng.range(1, *len as u64 - 1) as usize;
+            if let Some(v) = twin::chunk_compare(&cfg, &a, b, &[i]) {
+                o.viol = Some(v);
+                return (Case::Chunk { cfg, ops, burst: b, cuts: vec![i] }, o);
+            }
+            *o.stats.probes.entry("c09_partitions_checked").or_insert(0) += 1;
+        }
+    }
+    if bl.len() > 1 {
+        o.stats.hit("c09_multi_burst_history");
+    }
+    for cuts in parts {
+        *o.stats.probes.entry("c09_partitions_checked").or_insert(0) += 1;
+        *o.faults.entry("fragmentation".into()).or_insert(0) += 1;
+        if let Some(v) = twin::chunk_compare(&cfg, &a, bi, &cuts) {
+            o.viol = Some(v);
+            return (Case::Chunk { cfg, ops, burst: bi, cuts }, o);
+        }
+    }
+    (Case::Chunk { cfg, ops, burst: bi, cuts: vec![] }, o)
+}
+
+fn fork_outcome(kind: ForkKind, cfg: &Cfg, ops: &[Op], cont: &[Op], mangle: ExportMangle) -> Outcome {
+    let (cfg_a, cfg_b, head_a, head_b): (Cfg, Cfg, Vec<Op>, Vec<Op>) = match kind {
+        ForkKind::Crash => {
+            let mut ha = ops.to_vec();
+            ha.push(Op::Forget);
+            (cfg.clone(), cfg.clone(), ha, ops.to_vec())
+        }
+        ForkKind::Fresh => {
+            let mut ha = ops.to_vec();
+            ha.push(Op::Close { partial: 0 });
+            (cfg.clone(), cfg.clone(), ha, vec![])
+        }
+        ForkKind::Version => {
+            let mut ca = cfg.clone();
+            ca.ver = Ver::Undet;
+            let mut cb = cfg.clone();
+            cb.ver = if cfg.wire_v == 4 { Ver::V4 } else { Ver::V5 };
+            (ca, cb, vec![], vec![])
+        }
+    };
+    let r = twin::fork(kind, &cfg_a, &cfg_b, &head_a, &head_b, cont, mangle);
+    let mut o = Outcome { viol: r.viol.clone(), ..Default::default() };
+    merge_solo_stats(&mut o, &r.a);
+    merge_solo_stats(&mut o, &r.b);
+    o.log = r.a.w.log.iter().map(|l| format!("A {l}")).chain(r.b.w.log.iter().map(|l| format!("B {l}"))).collect();
+    o
+}
+
+fn gen_c16(rng: &mut Rng, tier: Tier, run: u64) -> (Case, Outcome) {
+    let mut cfg = solo::gen_cfg(rng, run % 3 != 0);
+    cfg.f_crash = false;
+    // sessions that persist: that is what an export is for
+    if cfg.wire_v == 5 {
+        cfg.sei = Some(*rng.pick(&[100u32, u32::MAX]));
+        cfg.s_sei = None;
+    }
+    cfg.offline = rng.chance(1, 8);
+    let mut prof = GenProfile::default();
+    if run % 2 == 0 {
+        prof.w_pub = 40;
+        prof.w_peerpub = 6;
+    } else {
+        prof.w_peerpub = 40;
+        prof.w_appack = 25;
+        cfg.f_dup = true;
+    }
+    let len = rng.range(3, if tier == Tier::Quick { 22 } else { 40 });
+    let mut s = Solo::new(cfg.clone());
+    let mut ops: Vec<Op> = vec![];
+    // persistent sessions only: first connect keeps the session
+    let mut o = Outcome::default();
+    let mut hist: Vec<Op> = vec![];
+    for i in 0..len {
+        let mut op = solo::gen_op(&s, rng, &prof);
+        if let Op::Connect { .. } = op {
+            op = Op::Connect { clean: i == 0 && rng.chance(1, 3) };
+        }
+        hist.push(op.clone());
+        s.exec(&op);
+        if s.w.failed() {
+            o.viol = s.w.viol.clone();
+            merge_solo_stats(&mut o, &s);
+            o.log = s.w.log.clone();
+            return (Case::Solo { cfg, ops: hist }, o);
+        }
+    }
+    merge_solo_stats(&mut o, &s);
+    o.shape = h64(&hist.iter().map(op_kind).collect::<Vec<_>>());
+    o.nontrivial = s.w.stats.round_trips >= 1 || !s.w.m.store.is_empty();
+    // every prefix is a crash point
+    for k in 0..=hist.len() {
+        ops = hist[..k].to_vec();
+        // continuation drawn against the uncrashed branch
+        let mut u = Solo::new(cfg.clone());
+        for op in ops.iter() {
+            u.exec(op);
+        }
+        u.exec(&Op::Forget);
+        if u.w.failed() {
+            o.viol = u.w.viol.clone();
+            let mut h = ops.clone();
+            h.push(Op::Forget);
+            return (Case::Solo { cfg, ops: h }, o);
+        }
+        let stored = !u.w.m.store.is_empty();
+        let handled = !u.w.m.inq2.is_empty();
+        let persistent = u.w.m.persistent;
+        let sp = persistent;
+        let mut cprof = GenProfile::default();
+        cprof.w_close = 0;
+        cprof.w_crash = 0;
+        cprof.w_disc = 0;
+        let mut first = vec![Op::Connect { clean: false }, Op::Connack { sp, rc: 0 }];
+        // duplicates of QoS2 publishes notified before the crash must stay suppressed
+        for id in u.peer_q2.clone() {
+            first.push(Op::PeerPub { qos: 2, id, dup: true, topic: 0, alias: 0, pad: 0 });
+        }
+        let clen = rng.range(2, 12);
+        let mut cont = twin::gen_script(&mut u, rng, &cprof, clen, &first);
+        cont.push(Op::Drain);
+        let mangle = if rng.chance(1, 4) { ExportMangle::DuplicateAll } else { ExportMangle::None };
+        let fo = fork_outcome(ForkKind::Crash, &cfg, &ops, &cont, mangle);
+        *o.stats.probes.entry("c16_crash_points").or_insert(0) += 1;
+        *o.faults.entry("crash_restart".into()).or_insert(0) += 1;
+        if stored {
+            o.stats.hit("c16_crash_with_stored_packets");
+        }
+        if handled {
+            o.stats.hit("c16_crash_with_handled_qos2");
+        }
+        if mangle != ExportMangle::None {
+            o.stats.hit("c16_malformed_export_duplicates");
+        }
+        o.steps += fo.steps;
+        if fo.viol.is_some() {
+            o.viol = fo.viol;
+            o.log = fo.log;
+            return (Case::Fork { kind: ForkKind::Crash, cfg, ops, cont, mangle }, o);
+        }
+    }
+    (Case::Fork { kind: ForkKind::Crash, cfg, ops: hist, cont: vec![], mangle: ExportMangle::None }, o)
+}
+
+/// ops whose effect does not depend on the harness's model of the session
+fn blind_script(cfg: &Cfg, rng: &mut Rng, len: u64) -> Vec<Op> {
+    let mut v = vec![];
+    let v5 = cfg.wire_v == 5;
+    for _ in 0..len {
+        v.push(match rng.below(14) {
+            0 | 1 => Op::Pub { qos: rng.below(3) as u8, topic: rng.below(3) as u8, alias: if v5 && rng.chance(1, 3) { *rng.pick(&[1u8, 0x81, 2]) } else { 0 }, pad: 0, fail: false },
+            2 | 3 => Op::PeerPub { qos: rng.below(3) as u8, id: rng.range(1, 3) as u32, dup: rng.chance(1, 3), topic: rng.below(3) as u8, alias: if v5 && rng.chance(1, 3) { *rng.pick(&[1u8, 0x81, 0x82]) } else { 0 }, pad: 0 },
+            4 => Op::PeerPubrel { id: rng.range(1, 3) as u32 },
+            5 => Op::AppAck { nth: 0, err: false },
+            6 => {
+                if cfg.as_client { Op::Ping } else { Op::PeerSimple { kind: crate::wire::PINGREQ } }
+            }
+            7 => {
+                if cfg.as_client { Op::Sub } else { Op::PeerSimple { kind: crate::wire::SUBSCRIBE } }
+            }
+            8 => Op::Acquire,
+            9 => Op::Timer { k: *rng.pick(&Tk::ALL) },
+            10 => Op::AppAnswer,
+            11 => Op::Release { nth: 0 },
+            12 => Op::Advance { ms: rng.range(1, 4000) },
+            _ => Op::PeerPub { qos: 2, id: rng.range(1, 2) as u32, dup: false, topic: 0, alias: 0, pad: 0 },
+        });
+    }
+    v
+}
+
+fn gen_c10(rng: &mut Rng, tier: Tier, run: u64) -> (Case, Outcome) {
+    let mut cfg = solo::gen_cfg(rng, true);
+    cfg.f_crash = false;
+    let prof = GenProfile::default();
+    let adversary = run % 3 == 0;
+    let len = rng.range(2, if tier == Tier::Quick { 30 } else { 80 });
+    let (s, ops) = gen_history(&cfg, &prof, rng, len, adversary);
+    let mut o = Outcome { shape: h64(&ops.iter().map(op_kind).collect::<Vec<_>>()), ..Default::default() };
+    if s.w.failed() {
+        o.viol = s.w.viol.clone();
+        merge_solo_stats(&mut o, &s);
+        o.log = s.w.log.clone();
+        return (Case::Solo { cfg, ops }, o);
+    }
+    o.nontrivial = s.w.stats.frames >= 2;
+    if s.w.lenient {
+        o.stats.hit("c10_history_with_adversarial_traffic");
+    }
+    if s.w.rx_pending() > 0 {
+        o.stats.hit("c10_history_ends_with_partial_frame");
+    }
+    if s.w.m.armed.iter().any(|a| *a) {
+        o.stats.hit("c10_history_ends_with_armed_timer");
+    }
+    if !s.w.m.subs.is_empty() {
+        o.stats.hit("c10_history_ends_with_pending_subscribe");
+    }
+    if !s.w.m.store.is_empty() {
+        o.stats.hit("c10_history_ends_with_stored_packets");
+    }
+    // new session: clean start, or (client) session not present
+    let mut cont: Vec<Op> = vec![Op::Connect { clean: true }, Op::Connack { sp: false, rc: 0 }];
+    if rng.chance(1, 3) {
+        cont = vec![Op::Connect { clean: false }, Op::Connack { sp: false, rc: 0 }];
+        o.stats.hit("c10_new_session_by_session_not_present");
+    }
+    let sl = rng.range(3, 16);
+    cont.extend(blind_script(&cfg, rng, sl));
+    let fo = fork_outcome(ForkKind::Fresh, &cfg, &ops, &cont, ExportMangle::None);
+    merge_o(&mut o, &fo);
+    if fo.viol.is_some() {
+        o.viol = fo.viol.clone();
+        o.log = fo.log.clone();
+    }
+    (Case::Fork { kind: ForkKind::Fresh, cfg, ops, cont, mangle: ExportMangle::None }, o)
+}
+
+fn merge_o(o: &mut Outcome, f: &Outcome) {
+    o.stats.merge(&f.stats);
+    for (k, v) in &f.faults {
+        *o.faults.entry(k.clone()).or_insert(0) += v;
+    }
+    o.steps += f.steps;
+    o.sim_ms += f.sim_ms;
+}
+
 pub fn replay(_prop: &str, case: &Case) -> Outcome {
     match case {
+        Case::Chunk { cfg, ops, burst, cuts } => {
+            let a = twin::run_reference(cfg, ops);
+            let mut o = Outcome::default();
+            merge_solo_stats(&mut o, &a);
+            o.log = a.w.log.clone();
+            if a.w.failed() {
+                o.viol = a.w.viol.clone();
+                return o;
+            }
+            o.viol = twin::chunk_compare(cfg, &a, *burst, cuts);
+            o
+        }
+        Case::Fork { kind, cfg, ops, cont, mangle } => fork_outcome(*kind, cfg, ops, cont, *mangle),
+        Case::Alloc { case } => alloc_outcome(case),
         Case::Solo { cfg, ops } => {
             let mut s = Solo::new(cfg.clone());
             for op in ops {
